@@ -59,12 +59,16 @@ package denco
 //@ spec wfWild(da) := forall k int @pat(IsWildcardParam(cellAt(da, k))) :: inCells(da, k) && IsWildcardParam(cellAt(da, k)) ==> edgeK(da, k, 42) < len(da.bc) && leafOK(da, edgeK(da, k, 42), pdepth(da, k - offof(da.bc)) + 1)
 
 //@ func (*doubleArray).lookup
+//@ watch AP = call (baseCheck).IsAnyParam
 //@ requires wf(da) && 0 <= idx && idx < len(da.bc) && len(params) == pdepth(da, idx)
 //@ ensures [C05:arity] result2 ==> result0 != nil && len(result1) == len(result0.paramNames)
 //@ ensures [C05:notfound] !result2 ==> result0 == nil && len(result1) == 0
 //@ assigns comp:F!middleware/denco.Param!Name, comp:F!middleware/denco.Param!Value
 //@ loop 0 invariant 0 <= i && i <= len(path) && 0 <= idx && idx < len(da.bc) && pdepth(da, idx) == len(params) && (indices == nil || fresh(indices)) && elems(da.bc) == old(elems(da.bc)) && elems(da.node) == old(elems(da.node))
 //@ loop 0 invariant forall j int :: 0 <= j && j < len(indices) ==> 0 <= indices[j] && ediv(indices[j], 4294967296) <= len(path) && emod(indices[j], 4294967296) < len(da.bc) && pdepth(da, emod(indices[j], 4294967296)) == len(params)
+// (completeness of the backtracking, as far as it is local to lookup: no parameter-capable position of the literal walk is lost)
+//@ loop 0 invariant calls(AP) == i
+//@ loop 0 invariant forall n int :: 0 <= n && n < i && ret(AP,n,0) ==> exists j int @try(len(indices)-1) :: 0 <= j && j < len(indices) && ediv(indices[j], 4294967296) == n
 //@ loop 1 invariant -1 <= j && j < len(indices) && (indices == nil || fresh(indices)) && elems(da.bc) == old(elems(da.bc)) && elems(da.node) == old(elems(da.node))
 //@ loop 1 invariant forall k int :: 0 <= k && k < len(indices) ==> 0 <= indices[k] && ediv(indices[k], 4294967296) <= len(path) && emod(indices[k], 4294967296) < len(da.bc) && pdepth(da, emod(indices[k], 4294967296)) == len(params)
 
